@@ -33,42 +33,49 @@ package ro
 //@ func MergeWith1$1
 //@   props C04 C05
 //@   binds obsA obsB
+//@   calls Just MergeAll fn:t0
 //@   track call.ANY callfn.ANY
 //@   ensures [merges-the-source-first-then-the-argument|C04,C05] trace(call.MergeAll(), call.Just(elems(obsA, obsB)), callfn.ANY(res(call.Just)))
 
 //@ func MergeWith2$1
 //@   props C04 C05
 //@   binds obsA obsB obsC
+//@   calls Just MergeAll fn:t0
 //@   track call.ANY callfn.ANY
 //@   ensures [merges-the-source-first-then-the-arguments-in-order|C04,C05] trace(call.MergeAll(), call.Just(elems(obsA, obsB, obsC)), callfn.ANY(res(call.Just)))
 
 //@ func MergeWith3$1
 //@   props C04 C05
 //@   binds obsA obsB obsC obsD
+//@   calls Just MergeAll fn:t0
 //@   track call.ANY callfn.ANY
 //@   ensures [merges-the-source-first-then-the-arguments-in-order|C04,C05] trace(call.MergeAll(), call.Just(elems(obsA, obsB, obsC, obsD)), callfn.ANY(res(call.Just)))
 
 //@ func MergeWith4$1
 //@   props C04 C05
 //@   binds obsA obsB obsC obsD obsE
+//@   calls Just MergeAll fn:t0
 //@   track call.ANY callfn.ANY
 //@   ensures [merges-the-source-first-then-the-arguments-in-order|C04,C05] trace(call.MergeAll(), call.Just(elems(obsA, obsB, obsC, obsD, obsE)), callfn.ANY(res(call.Just)))
 
 //@ func MergeWith5$1
 //@   props C04 C05
 //@   binds obsA obsB obsC obsD obsE obsF
+//@   calls Just MergeAll fn:t0
 //@   track call.ANY callfn.ANY
 //@   ensures [merges-the-source-first-then-the-arguments-in-order|C04,C05] trace(call.MergeAll(), call.Just(elems(obsA, obsB, obsC, obsD, obsE, obsF)), callfn.ANY(res(call.Just)))
 
 //@ func ConcatWith$1
 //@   props C04 C05 C15
 //@   binds source obs
+//@   calls ConcatAll Just fn:t0
 //@   track call.ConcatAll call.Just callfn.ANY
 //@   ensures [concatenates-the-source-first-then-the-arguments-in-order|C04,C05,C15] trace(call.ConcatAll(), call.Just(_), callfn.ANY(res(call.Just))) && len(arg(call.Just, 0)) == len(obs) + 1 && arg(call.Just, 0)[0] == source && forall(j, 0, len(obs), arg(call.Just, 0)[j + 1] == obs[j])
 
 //@ func MergeWith$1
 //@   props C04 C05
 //@   binds obsA observables
+//@   calls Just MergeAll fn:t8
 //@   track call.MergeAll call.Just callfn.ANY
 //@   ensures [merges-the-source-first-then-the-arguments-in-order|C04,C05] trace(call.MergeAll(), call.Just(_), callfn.ANY(res(call.Just))) && len(arg(call.Just, 0)) == len(observables) + 1 && arg(call.Just, 0)[0] == obsA
 
